@@ -146,6 +146,16 @@ def explore_state(acc, pendulum, z, inst, inter, deep=True, kinds=True):
     if len(keys) > 1:
         acc.mismatch("route-independence", "depth1", base, sorted(map(str, keys)), "one observable state")
     acc.c["impl_states"] += len(keys)
+    # astimezone() without an argument: the process's local zone (the harness pins TZ=UTC)
+    try:
+        xl = a.astimezone()
+        gotl = (obs.fields(xl), obs.offset_s(xl), type(xl) is pendulum.DateTime)
+    except Exception as e:  # noqa: BLE001
+        gotl = f"raises {type(e).__name__}"
+    acc.c["transitions"] += 1
+    wl = obs.expected_render("UTC", inst)
+    if gotl != (wl[0], wl[1], True):
+        acc.mismatch("astimezone()", "local-zone", dict(base, op="astimezone()"), gotl, [wl[0], wl[1], True])
     # foreign tzinfo kinds as sources of instance()
     if kinds:
         exp_f, exp_o = obs.expected_render(z, inst)
@@ -181,6 +191,15 @@ def explore_state(acc, pendulum, z, inst, inter, deep=True, kinds=True):
             elif kname in ("zoneinfo", "pytz") and r.timezone_name != z:
                 acc.mismatch(f"instance({kname})", "zone-name", case, r.timezone_name, z)
             if kname == "pytz":
+                # a pytz zone as TARGET of astimezone(): fromutc() answers with a per-offset tzinfo instance
+                try:
+                    xp = a.astimezone(ktz)
+                    gotp = (obs.fields(xp), obs.offset_s(xp))
+                except Exception as e:  # noqa: BLE001
+                    gotp = f"raises {type(e).__name__}"
+                acc.c["transitions"] += 1
+                if gotp != (exp_ff, exp_oo):
+                    acc.mismatch("astimezone(pytz)", "rendering", dict(base, op="astimezone(pytz)"), gotp, [exp_ff, exp_oo])
                 continue
             # aware DateTimes that carry a FOREIGN tzinfo (results of astimezone(<stdlib tz>), fromisoformat, the
             # constructor) as receivers of the conversions
